@@ -187,6 +187,14 @@ def run(chk):
     replay_scripts(chk, binary)
     import checks.c20_free as free
     free.run_free(chk, binary)
+    # at most once ACROSS several key updates: arrival scripts of spec/ReplayEpochs.tla (a record replayed after up to three
+    # further updates; every read generation is retained, so only the per-epoch windows stand between a duplicate and Read)
+    import checks.c06 as c06
+    res = vlib.tlc_check("ReplayEpochs", "ReplayEpochs.mc.%s.cfg" % chk.tier, timeout=1500)
+    chk.add_tlc("mc.replay-epochs", res)
+    deep = vlib.tlc_generate("ReplayEpochs", "ReplayEpochs.gendeep.%s.cfg" % chk.tier, timeout=1500)
+    chk.add_tlc("gen.replay-epochs", deep)
+    c06.run_scripts(chk, binary, [dict(x, ver="13") for x in deep.printed], "replays-across-updates", test="TestVerifReplayOps")
     chk.coverage["rule"] = ("(B) one script per explored edge of each generation configuration of PostHandshake13 (two-sided updates with and without "
                             "request, pending ticket, crafted early record, three successive updates), seeded sample replayed; (C) seeded free-running "
                             "sessions; distinct = distinct model edges covered by replayed scripts + distinct session seeds")
@@ -199,7 +207,10 @@ def run(chk):
 def replay(chk, path):
     facts = json.load(open(path))
     binary = vlib.build("root")
-    if facts.get("mode") == "script":
+    if facts.get("kind") == "anti-replay":
+        import checks.c06 as c06
+        c06.replay(chk, path)
+    elif facts.get("mode") == "script":
         rows = run_harness(binary, "TestVerifC20Scripts", [dict(facts["case"], id=0)], "r")
         for r in rows:
             for v in (r.get("violations") or []):
